@@ -275,7 +275,7 @@ func checkC10(c C10Case) h.Outcome {
 	r := callLogout(c.SP, m.Kind, c.Encoded)
 	matches := func(got ErrSpec) bool {
 		for _, e := range c.Expect {
-			if e == got {
+			if specMatch(e, got) {
 				return true
 			}
 		}
